@@ -46,6 +46,13 @@ type ArrayV struct { // array VALUE (e.g. [10]byte loaded from a global): snapsh
 	Leaves map[string]*Content
 }
 
+// ArrayRef stands in a single object's value tree for an array-typed field: the cells live in a
+// separate array object owned by the enclosing object (so that &x.f[i] and x.f[:] alias x).
+type ArrayRef struct {
+	Obj *Object
+	T   *types.Array
+}
+
 type IfaceV struct {
 	// concrete case: Dyn != nil, Val set.  symbolic case: Tag term + identity term; payloads materialised lazily
 	Dyn      types.Type
@@ -94,6 +101,7 @@ type ObjState struct {
 	Val    SVal                // single objects
 	Leaves map[string]*Content // array objects: leaf path -> content
 	ALen   *Term               // allocated length (BV64) for arrays
+	Cells  map[string]SVal     // array objects: non-scalar element leaves stored at CONCRETE indices ("idx/path")
 }
 
 type ContentKind int
